@@ -342,7 +342,9 @@ done:
 	if !truncated {
 		for iter.Next() {
 			object := iter.Key().(string)
-			if matched := prefix.Match(object, &match); matched && !match.CommonPrefix {
+			// A key counts as "more" if it would add something to the listing: an
+			// upload, or a common prefix that has not been reported yet.
+			if matched := prefix.Match(object, &match); matched && (!match.CommonPrefix || !seenPrefixes[match.MatchedPart]) {
 				truncated = true
 
 				// This is not especially defensive; it assumes the rest of the code works
